@@ -97,7 +97,7 @@ def simulate(seed, tier, replay=None, n_total=None):
         for f in old[:-6]:
             os.remove(f)
         if n_total is None:
-            n_total = 1600 if tier == "thorough" else 256
+            n_total = 1600 if tier == "thorough" else 384
         nsh = 1 if replay else NSHARD
         per = max(1, n_total // nsh)
         outdir = os.path.join(D.BUILD, "cases", "WORLD")
